@@ -20,6 +20,7 @@ ASSUMPTIONS = [
     "values are ints / short strings / None and list, tuple, dict displays of them; hand-written text is `v+0`",
     "test bodies record comparison results instead of asserting, so observations do not depend on the approved set",
     "== observations inside one session are one repeated value (contradicting tests are exempt by the property)",
+    "bounds over a partial order (sets by inclusion): observations of one site form a chain; incomparable observations have no tightest bound",
     "reported categories are per session in run_inline, hence one call site per session",
 ]
 CATS = ("create", "fix", "trim", "update")
@@ -50,7 +51,7 @@ EQ_DOM = [0, 1, "a", None, [], [0], [0, 1], [1, 0], [0, 1, 2], {"a": 0}, {"a": 0
 
 
 def bounds(tier):
-    return {"depth": _depth(tier), "depth_sub_snapshots": 2, "int_domain": _dom(tier), "max_observations": 3, "approved_sets": "all 16 (quick: 8 for sub-snapshot states at depth >= 1)" if tier == "quick" else 16,
+    return {"partial_order_family": {"values": PO_VALUES, "chains": len(PO_CHAINS), "ops": ["<=", ">="], "approved_sets": 16, "depth": 1}, "depth": _depth(tier), "depth_sub_snapshots": 2, "int_domain": _dom(tier), "max_observations": 3, "approved_sets": "all 16 (quick: 8 for sub-snapshot states at depth >= 1)" if tier == "quick" else 16,
             "eq_domain": len(EQ_DOM), "seeds": {k: len(v) for k, v in SEEDS.items()}}
 
 
@@ -191,11 +192,95 @@ def _step(case):
     return viol, info
 
 
+# ------------------------------------------------------------------ bounds over a partial order (sets ordered by inclusion)
+
+PO_VALUES = ["set()", "{0}", "{1}", "{0, 1}", "{0, 2}", "{0, 1, 2}"]
+PO_CHAINS = [["{0}", "{0, 1}"], ["{0, 1}", "{0}"], ["set()", "{1}"], ["{0}", "{0, 1}", "{0, 1, 2}"], ["{0, 1, 2}", "{0}"]]
+
+
+def _po_cases():
+    cases = []
+    for op in ("<=", ">="):
+        for prev in [""] + PO_VALUES:
+            for xs in [[v] for v in PO_VALUES] + PO_CHAINS:
+                for F in FS:
+                    cases.append({"po": True, "op": op, "arg": prev, "xs": xs, "F": F})
+    return cases
+
+
+def _po_model(op, prev, xs, F):
+    """One call site, observations form a chain under inclusion: the documented bound rules, with 'fails' meaning
+    the comparison against the current value is false (which for incomparable sets is the case in both directions)."""
+    vals = [eval(x) for x in xs]
+    e = max(vals, key=len) if op == "<=" else min(vals, key=len)
+    if prev == "":
+        return {"create"}, (e if "create" in F else None)
+    p = eval(prev)
+    holds = all((v <= p) if op == "<=" else (v >= p) for v in vals)
+    if not holds:
+        return {"fix"}, (e if "fix" in F else p)
+    if e != p:
+        return {"trim"}, (e if "trim" in F else p)
+    return set(), p
+
+
+def _po_step(case):
+    from ..drivers.inline import run_inline
+    from ..oracles.locate import snapshot_calls
+
+    op, arg, xs, F = case["op"], case["arg"], case["xs"], case["F"]
+    R, nxt = _po_model(op, arg, xs, set(F))
+    lines = ["s = snapshot(%s)" % arg, "_r = []"] + ["_r.append(%s %s s)" % (x, op) for x in xs]
+    src = "from inline_snapshot import snapshot\n\n\ndef test_0():\n" + "".join("    " + l + "\n" for l in lines)
+    r = run_inline({"test_something.py": src}, F)
+    viol = []
+
+    def V(what, detail):
+        viol.append({"case": case, "what": what, "detail": detail + " | model: R=%s next=%r | source:\n%s" % (sorted(R), nxt, src)})
+
+    if r["error"]:
+        V("internal-error", r["error"]["type"] + ": " + r["error"]["msg"][:300])
+        return viol, R
+    if r["raised"]:
+        V("test-raised", str(r["raised"])[:300])
+        return viol, R
+    txt = snapshot_calls(r["files"]["test_something.py"])[0]["arg_text"].strip()
+    got = eval(txt) if txt else None
+    if sorted(r["reported"] or []) != sorted(R):
+        V("categories-differ", "reported=%s" % (r["reported"],))
+    if got != nxt:
+        V("next-value-differs", "written=%s" % txt[:200])
+    return viol, R
+
+
 def run_case(case):
+    if case.get("po"):
+        return _po_step(case)[0]
     return _step(case)[0]
 
 
+def _po_task(task):
+    out = {"n": 0, "nontrivial": [], "outcomes": {}, "violations": [], "samples": [], "states": [], "transitions": 0, "validated": 0, "next": []}
+    for case in task["po_cases"]:
+        viol, R = _po_step(case)
+        out["n"] += 1
+        out["transitions"] += 1
+        lab = "po:%s:%s" % (case["op"], "+".join(sorted(R)) or "none")
+        if viol:
+            out["violations"] += viol
+            lab = "viol:" + viol[0]["what"]
+        else:
+            out["validated"] += 1
+            if R:
+                out["nontrivial"].append(json.dumps(case, sort_keys=True))
+        out["outcomes"][lab] = out["outcomes"].get(lab, 0) + 1
+    out["states"] = sorted({"po|%s|%s" % (c["op"], c["arg"]) for c in task["po_cases"]})
+    return out
+
+
 def run_task(task):
+    if "po_cases" in task:
+        return _po_task(task)
     op, arg = task["op"], task["arg"]
     out = {"n": 0, "nontrivial": [], "outcomes": {}, "violations": [], "samples": [], "states": [], "transitions": 0,
            "validated": 0, "next": []}
@@ -241,10 +326,17 @@ def explore(tier, seed, runner):
             steps = [(a, F) for a in actions(op, s, tier) for F in fs]
             for i in range(0, len(steps), CHUNK):
                 tasks.append({"op": op, "arg": seen[(op, s)], "steps": steps[i : i + CHUNK], "depth": depth})
+        if depth == 0:
+            po = _po_cases()
+            tasks += [{"po_cases": po[i : i + CHUNK]} for i in range(0, len(po), CHUNK)]
         results = runner(tasks)
         new = []
         for t, r in zip(tasks, results):
             done.append((t, r))
+            if "po_cases" in t:
+                if r and r[0] == "ok":
+                    r[1].pop("next", None)
+                continue
             if r and r[0] == "ok":
                 r[1]["states"] = [t["op"] + "|" + t["arg"]]
                 for st, txt in r[1].pop("next"):
